@@ -36,8 +36,8 @@ template class ikos::separate_domain<K, GV>;
 //    operator-(const Element&) do not compile (an lvalue tree is passed to the rvalue-only private
 //    constructor), see pending_fixes/sepdom-2-*;
 //  * union / intersection / insertion go through binary_op<K,bool>::apply, which returns the 3-byte
-//    std::pair<bool, boost::optional<bool>> in an i24 register: tools/ll2c.py has no i24, so only the members
-//    that do not touch a binary_op<K,bool> are forced here (order, equality, membership, removal, flags).
+//    std::pair<bool, boost::optional<bool>> in an i24 register: tools/ll2c.py carries it in a uint32_t
+//    (byte 0 = first, byte 1 = optional::m_initialized, byte 2 = the bool), see contracts_setops.c.
 typedef ikos::separate_domain<K, GV> SD;
 typedef ikos::patricia_tree_set<K> PS;
 typedef ikos::discrete_domain<K> DD;
@@ -57,5 +57,15 @@ bool dd_leq(const DD *a, const DD *b) { return *a <= *b; }
 bool dd_equal(const DD *a, const DD *b) { return *a == *b; }
 bool dd_contain(DD *a, const K *e) { return a->contain(*e); }
 void dd_remove(DD *a, const K *e) { *a -= *e; }
+// union / intersection / insertion (instantiates union_op, intersection_op and patricia_tree<K,bool>::merge_with / insert)
+void ps_union(PS *r, const PS *a, const PS *b) { new (r) PS(*a | *b); }
+void ps_inter(PS *r, const PS *a, const PS *b) { new (r) PS(*a & *b); }
+void ps_union_with(PS *a, const PS *b) { *a |= *b; }
+void ps_inter_with(PS *a, const PS *b) { *a &= *b; }
+void ps_insert(PS *a, const K *e) { *a += *e; }
+void dd_union(DD *r, const DD *a, const DD *b) { new (r) DD(*a | *b); }
+void dd_inter(DD *r, const DD *a, const DD *b) { new (r) DD(*a & *b); }
+void dd_union_with(DD *a, const DD *b) { *a |= *b; }
+void dd_insert(DD *a, const K *e) { *a += *e; }
 void sd_widening_thresholds(SD *r, const SD *a, const SD *b, const TS *ts) { *r = a->widening_thresholds(*b, *ts); }
 }
